@@ -1,0 +1,15 @@
+//go:build verif
+
+package byron
+
+// Contracts for /verif (contract-based deductive verification). Comment-only:
+// with the build tag off this file does not exist for the compiler, with it on
+// it compiles to nothing. Checked by /verif/bin/govc.
+
+//@ func largestPowerOfTwoBelow(n) (r)
+//@   props C35
+//@   requires range: 2 <= n && n <= 1<<62
+//@   ensures pow2: r >= 1 && r & (r-1) == 0
+//@   ensures split: r < n && n <= 2*r
+//@   loop 0 invariant power >= 1 && power & (power-1) == 0 && power < n && power <= 1<<61
+//@   loop 0 decreases n - power
